@@ -56,7 +56,7 @@ func buildCases(e *lib.Env) []*tcase {
 			for _, side := range rt.sides {
 				for mi := range muts {
 					m := muts[mi]
-					ck := rt.name + "/" + side + "/" + m.name + "/" + m.path
+					ck := rt.name + "/" + side + "/" + m.name + "/" + m.path // == tcase.key()
 					take := w <= fullW
 					if seen[ck] < cover {
 						take = true
